@@ -232,7 +232,7 @@ func baseNext(L *LState) int {
 	if L.GetTop() >= 2 {
 		index = L.Get(2)
 	}
-	key, value := tb.Next(index)
+	key, value := L.Next(tb, index)
 	if key == LNil {
 		L.Push(LNil)
 		return 1
@@ -244,7 +244,7 @@ func baseNext(L *LState) int {
 
 func pairsaux(L *LState) int {
 	tb := L.CheckTable(1)
-	key, value := tb.Next(L.Get(2))
+	key, value := L.Next(tb, L.Get(2))
 	if key == LNil {
 		return 0
 	} else {
